@@ -74,15 +74,23 @@ O(n, role)    == [k |-> "O", n |-> n, f |-> 0, v |-> 0, role |-> role]
 C(f, v, role) == [k |-> "C", n |-> f, f |-> f, v |-> v, role |-> role]
 CS(v, role)   == C(MinForm(v), v, role)         \* the minimal encoding
 
-RECURSIVE Flat(_)
-Flat(ss) == IF Len(ss) = 0 THEN <<>> ELSE Head(ss) \o Flat(Tail(ss))
-RECURSIVE SumSeq(_)
-SumSeq(q) == IF Len(q) = 0 THEN 0 ELSE Head(q) + SumSeq(Tail(q))
+\* (the folds below split their range in halves: TLC's evaluation contexts grow with the recursion depth
+\*  and a layout of a long block has thousands of tokens)
+RECURSIVE FlatR(_, _, _)
+FlatR(ss, a, b) == IF a > b THEN <<>> ELSE IF a = b THEN ss[a]
+                   ELSE FlatR(ss, a, (a + b) \div 2) \o FlatR(ss, (a + b) \div 2 + 1, b)
+Flat(ss) == FlatR(ss, 1, Len(ss))
+RECURSIVE SumR(_, _, _)
+SumR(q, a, b) == IF a > b THEN 0 ELSE IF a = b THEN q[a]
+                 ELSE SumR(q, a, (a + b) \div 2) + SumR(q, (a + b) \div 2 + 1, b)
+SumSeq(q) == SumR(q, 1, Len(q))
 NonEmpty(s) == SelectSeq(s, LAMBDA t : t.n > 0)  \* Bytes(0) contributes no bytes
 
-RECURSIVE Before(_, _)
-Before(s, i) == IF i <= 1 THEN 0 ELSE Before(s, i - 1) + s[i - 1].n   \* bytes in front of token i
-NBytes(s) == Before(s, Len(s) + 1)
+RECURSIVE BytesR(_, _, _)
+BytesR(s, a, b) == IF a > b THEN 0 ELSE IF a = b THEN s[a].n
+                   ELSE BytesR(s, a, (a + b) \div 2) + BytesR(s, (a + b) \div 2 + 1, b)
+Before(s, i) == BytesR(s, 1, i - 1)               \* bytes in front of token i
+NBytes(s) == BytesR(s, 1, Len(s))
 
 (***************************************************************************)
 (* Abstract transactions and their canonical encoding                      *)
@@ -124,8 +132,9 @@ BlockTotal(q)  == 80 + MinForm(Len(q)) + SumSeq([i \in 1..Len(q) |-> q[i].size])
 BlockWeight(q) == 3 * BlockBase(q) + BlockTotal(q)
 
 (***************************************************************************)
-(* The reader.  Position = (i, r): r bytes of token i are already taken.   *)
-(* Reader state S = [st, why, i, r, val, ins, outs, stk, cur, txs].        *)
+(* The reader.  Position = (i, r): r bytes of token i are already taken;   *)
+(* off = the same position as a byte offset.                               *)
+(* Reader state S = [st, why, i, r, off, val, ins, outs, stk, cur, txs].   *)
 (***************************************************************************)
 RECURSIVE Adv(_, _, _, _)
 \* advance n bytes; <<0,0>> when fewer than n bytes are left.  Adv(.., 0) normalises a position.
@@ -133,18 +142,18 @@ Adv(s, i, r, n) == IF i > Len(s) THEN (IF n = 0 THEN <<i, 0>> ELSE <<0, 0>>)
                    ELSE LET a == s[i].n - r
                         IN  IF n < a THEN <<i, r + n>> ELSE Adv(s, i + 1, 0, n - a)
 
-Start == [st |-> "ok", why |-> "", i |-> 1, r |-> 0, val |-> 0,
+Start == [st |-> "ok", why |-> "", i |-> 1, r |-> 0, off |-> 0, val |-> 0,
           ins |-> <<>>, outs |-> <<>>, stk |-> <<>>, cur |-> <<>>, txs |-> <<>>, wit |-> FALSE]
 Fail(S, w) == [S EXCEPT !.st = "refuse", !.why = w]
 Dep(S)     == [S EXCEPT !.st = "dep", !.why = "content"]
-Pos(s, S)  == Before(s, S.i) + S.r
+Pos(s, S)  == S.off
 Rem(s, S)  == NBytes(s) - Pos(s, S)
 
 \* n opaque bytes (a fixed field, or the body of a script / witness item)
 RdFixed(s, S, n) ==
     IF S.st # "ok" THEN S
     ELSE LET p == Adv(s, S.i, S.r, n)
-         IN  IF p[1] = 0 THEN Fail(S, "truncated") ELSE [S EXCEPT !.i = p[1], !.r = p[2]]
+         IN  IF p[1] = 0 THEN Fail(S, "truncated") ELSE [S EXCEPT !.i = p[1], !.r = p[2], !.off = @ + n]
 
 \* serialize.h ReadCompactSize(is, range_check = true): end of data, then canonicity, then range
 RdCS(s, S) ==
@@ -156,7 +165,7 @@ RdCS(s, S) ==
                       ELSE IF t.n < t.f THEN Fail(S, "truncated")
                       ELSE IF t.f # MinForm(t.v) /\ ~Lenient THEN Fail(S, "nonminimal")
                       ELSE IF TooLarge(t.v) THEN Fail(S, "oversize")
-                      ELSE [S EXCEPT !.i = p[1] + 1, !.r = 0, !.val = t.v]
+                      ELSE [S EXCEPT !.i = p[1] + 1, !.r = 0, !.off = @ + t.f, !.val = t.v]
 
 \* one byte (the flag).  The first byte of a longer CompactSize token is its prefix 0xfd / 0xfe / 0xff.
 RdByte(s, S) ==
@@ -166,7 +175,7 @@ RdByte(s, S) ==
              ELSE LET t == s[p[1]]
                       q == Adv(s, p[1], 0, 1)
                   IN  IF p[2] # 0 \/ t.k = "O" THEN Dep(S)
-                      ELSE [S EXCEPT !.i = q[1], !.r = q[2],
+                      ELSE [S EXCEPT !.i = q[1], !.r = q[2], !.off = @ + 1,
                                      !.val = IF t.f = 1 THEN t.v ELSE IF t.f = 3 THEN 253 ELSE IF t.f = 5 THEN 254 ELSE 255]
 
 \* A vector whose claimed element count cannot fit in the remaining bytes is refused whatever the
@@ -253,7 +262,8 @@ RdTxIn(s, S) ==
         x == DecOf(L)
     IN  IF L.st = "ok" THEN [L EXCEPT !.txs = Append(@, [size |-> Pos(s, L) - Pos(s, S), nowit |-> NoWitSize(x), dec |-> x])] ELSE L
 RECURSIVE RdTxs(_, _, _)
-RdTxs(s, S, k) == IF k = 0 \/ S.st # "ok" THEN S ELSE RdTxs(s, RdTxIn(s, S), k - 1)
+RdTxs(s, S, k) == IF k = 0 \/ S.st # "ok" THEN S ELSE IF k = 1 THEN RdTxIn(s, S)
+                  ELSE RdTxs(s, RdTxs(s, S, k \div 2), k - k \div 2)      \* k transactions, in halves
 DecodeBlock(s) ==
     LET H == RdFixed(s, Start, 80)
         A == RdCS(s, H)
@@ -424,15 +434,13 @@ SizeLaws ==
 \* re-encoding what was decoded gives back the consumed bytes, at the layout level: the same number of
 \* bytes and every CompactSize of the re-encoding sits, in the same form with the same value, where the
 \* input has one (so every length prefix the reader used was minimal).
-RECURSIVE CSet(_, _, _, _)
-\* the complete CompactSize tokens of a layout as <<offset, form, value>> triples
-CSet(s, i, off, acc) ==
-    IF i > Len(s) THEN acc
-    ELSE CSet(s, i + 1, off + s[i].n,
-              IF s[i].k = "C" /\ s[i].n = s[i].f THEN acc \cup {<<off, s[i].f, s[i].v>>} ELSE acc)
-SameCS(s, e, off) == CSet(e, 1, off, {}) \subseteq CSet(s, 1, 0, {})
-RECURSIVE TxOffsets(_, _)
-TxOffsets(q, off) == IF Len(q) = 0 THEN <<>> ELSE <<off>> \o TxOffsets(Tail(q), off + Head(q).size)
+RECURSIVE CSetR(_, _, _, _)
+\* the complete CompactSize tokens a..b of a layout as <<offset, form, value>> triples; off = offset of token a
+CSetR(s, a, b, off) ==
+    IF a > b THEN {}
+    ELSE IF a = b THEN (IF s[a].k = "C" /\ s[a].n = s[a].f THEN {<<off, s[a].f, s[a].v>>} ELSE {})
+    ELSE CSetR(s, a, (a + b) \div 2, off) \cup CSetR(s, (a + b) \div 2 + 1, b, off + BytesR(s, a, (a + b) \div 2))
+SameCS(s, e, off) == CSetR(e, 1, Len(e), off) \subseteq CSetR(s, 1, Len(s), 0)
 ReencodeIdentity ==
     \A s \in {Layout(c)} : \A d \in {Decode(c.sh.kind, s)} :
         d.v = "accept" =>
